@@ -243,9 +243,10 @@ pub fn c01(cx: &mut Ctx) {
             cx.meta(&format!("payload {}", hx(&ex.payload)));
             run_schedule(cx, &ex, &mut r, s % 5);
         }
-        // 3xx heads with Location are excluded here: an arrival that stops after the Location line is D10 (C05)
-        if ex.forbid.is_none() {
-            for s in 0..4 {
+        // a 3xx head with Location only under schedules whose windows are safe (D10 is owned by C05): everything
+        // at once (mode 0); the other exchanges under all four schedule shapes
+        {
+            for s in 0..(if ex.forbid.is_none() { 4 } else { 1 }) {
                 let mut r = cx.case("xr");
                 cx.meta(&format!("group x{}", g));
                 cx.meta(&format!("msglen {}", ex.msglen));
